@@ -31,6 +31,12 @@ var regressionHistories = [][]string{
 	{"v41", "reg 0 1", "send 8 0 2 1 0 write 2 -1 25 4 park=write:2", "fdup 8 14 1", "fdup 8 15 0", "dup 8", "rel 8", "dup 14", "dup 8"},
 	{"v40", "open 0 0 0 1 0 2 0", "dup 0", "confirm 1 0 2", "dup 1", "dup 0", "close 2 1 3", "dup 2", "open 3 0 0 4 1 2 0", "dup 2", "close 4 0 3"},
 	{"v40", "open 0 0 0 5 0 2 0 park", "dup 0", "dup 0", "rel 0", "confirm 1 0 6", "oprev 2 0 0 7 0 2 park", "dup 2", "rel 2", "lock 3 2 8 1 0 5 0", "dup 3", "lockx 4 3 2 10 5 0", "dup 4", "locku 5 4 3 0 5", "dup 5", "dup 4"},
+	// CLOSE of a sibling file that reuses the previous CLOSE's seqid, the two state IDs being at the same seqid
+	{"v40", "open 0 0 0 1 0 2 0", "confirm 1 0 2", "open 2 0 0 3 1 0 0", "open 3 0 0 4 1 2 0", "close 4 1 5", "dup 4", "close 5 3 5", "close 6 3 6"},
+	// nested lock-owner transaction of LOCK(open_to_lock_owner4) on an existing lock-owner: out-of-order lock seqid,
+	// then an in-order request; cached lock seqid; proper; already associated
+	{"v40", "open 0 0 0 1 0 2 0", "confirm 1 0 2", "lock 2 1 3 100 0 5 0", "open 3 0 0 4 1 2 0", "lock 4 3 5 105 0 5 0 lo=2", "down 5 3 5 2",
+		"lock 6 5 6 100 8 5 0 lo=2", "lock 7 5 7 101 8 5 0 lo=2", "lock 8 1 8 102 20 5 0 lo=2", "down 9 5 8 1", "lock 10 5 10 102 30 2 0 lo=2"},
 	{"v41", "reg 0 1", "cs 0 0", "cs 0 2", "reg 0 2", "cs 0 0", "send 0 0 0 1 1 empty", "send 1 1 0 1 1 empty", "reg 1 1", "send 2 2 0 1 1 dsess 2", "dup 2"},
 }
 
